@@ -1172,3 +1172,251 @@ Proof.
     now rewrite app_nil_r.
 Qed.
 End Readings.
+
+(* ---- arbitrary call trees: a subscribed observer stays registered ---- *)
+Section Registered.
+Context {A : Type} (pynone : A) (K : kind) (react : nat -> nat -> list (@op A)).
+Notation C := (cls_of pynone K).
+
+Definition subject_live (s : @sstate A) : Prop := is_stopped s = false /\ is_disposed s = false.
+
+Record Reg (c : @cfg A) : Prop := {
+  reg_nodup : NoDup (observers (c_st c));
+  reg_dom : forall o, In o (observers (c_st c)) -> c_obs c o <> None;
+  reg_in : forall o os, c_obs c o = Some os -> a_stopped os = false -> subject_live (c_st c) ->
+           In o (observers (c_st c));
+  reg_sad : forall o os, c_obs c o = Some os -> sad_disposed os = true -> a_stopped os = true }.
+
+Lemma subscribe_cases (s : @sstate A) o s' is sub :
+  c_subscribe C s o = Some (s', is, sub) ->
+  (observers s' = observers s ++ [o] /\ is_stopped s' = is_stopped s /\ is_disposed s' = is_disposed s) \/
+  (s' = s /\ is_stopped s = true).
+Proof.
+  destruct K; cbn; unfold subj_subscribe, beh_subscribe, async_subscribe;
+    destruct (is_disposed s) eqn:Ed; try discriminate; destruct (is_stopped s) eqn:Es; cbn [negb].
+  all: first [ intros [= <- _ _]; left; cbn; repeat split; assumption
+             | destruct (exception s); try destruct (has_value s); intros [= <- _ _]; right; split; reflexivity ].
+Qed.
+
+Lemma next_keeps (s : @sstate A) v :
+  observers (fst (c_next C s v)) = observers s /\ is_stopped (fst (c_next C s v)) = is_stopped s /\
+  is_disposed (fst (c_next C s v)) = is_disposed s.
+Proof. destruct K; cbn; repeat split. Qed.
+
+Lemma error_stops (s : @sstate A) e :
+  observers (fst (c_error C (set_stopped true s) e)) = [] /\ is_stopped (fst (c_error C (set_stopped true s) e)) = true.
+Proof. destruct K; cbn; split; reflexivity. Qed.
+
+Lemma completed_stops (s : @sstate A) :
+  observers (fst (c_completed C (set_stopped true s))) = [] /\
+  is_stopped (fst (c_completed C (set_stopped true s))) = true.
+Proof. destruct K; cbn; split; reflexivity. Qed.
+
+Lemma dispose_stops (s : @sstate A) : observers (c_dispose C s) = [] /\ is_disposed (c_dispose C s) = true.
+Proof. destruct K; cbn; split; reflexivity. Qed.
+
+Lemma inner_dispose_cases (s : @sstate A) os o :
+  (fst (inner_dispose s os o) = s \/
+   fst (inner_dispose s os o) = set_observers (remove1 o (observers s)) s) /\
+  a_stopped (snd (inner_dispose s os o)) = a_stopped os /\
+  sad_disposed (snd (inner_dispose s os o)) = sad_disposed os.
+Proof.
+  unfold inner_dispose. destruct (negb (is_disposed s) && inner_obs os); [|repeat split; now left].
+  destruct (mem o (observers s)); repeat split; [now right|now left].
+Qed.
+
+Lemma ado_dispose_cases (s : @sstate A) os o :
+  (fst (ado_dispose s os o) = s \/ fst (ado_dispose s os o) = set_observers (remove1 o (observers s)) s) /\
+  a_stopped (snd (ado_dispose s os o)) = true.
+Proof.
+  split; [|apply ado_dispose_stopped].
+  unfold ado_dispose. cbn [sad_disposed sad_cur a_stopped inner_obs handle calls].
+  destruct (sad_disposed os); [now left|]. destruct (sad_cur os) as [[|]|]; cbn [sub_dispose fst]; try now left.
+  apply inner_dispose_cases.
+Qed.
+
+(* a change of the subject state that keeps the flags and removes at most o from
+   the observer list, together with stopping o's wrapper, preserves Reg *)
+Lemma Reg_remove s m k l s' os' k' l' o :
+  Reg (Cfg s m k l) -> (exists os, m o = Some os) ->
+  (s' = s \/ s' = set_observers (remove1 o (observers s)) s) ->
+  a_stopped os' = true ->
+  Reg (Cfg s' (upd m o os') k' l').
+Proof.
+  intros [R1 R2 R3 R4] [os0 Hm0] Hs Hst. cbn [c_st c_obs] in *.
+  assert (Hfl : is_stopped s' = is_stopped s /\ is_disposed s' = is_disposed s).
+  { destruct Hs as [->| ->]; split; reflexivity. }
+  assert (Hin : forall x, x <> o -> In x (observers s) -> In x (observers s')).
+  { intros x Hne Hx. destruct Hs as [->| ->]; [exact Hx|]. cbn. apply (In_remove1 o _ x R1). tauto. }
+  assert (Hsub : forall x, In x (observers s') -> In x (observers s)).
+  { intros x. destruct Hs as [->| ->]; [tauto|]. cbn. intros H. apply (In_remove1 o _ x R1) in H. tauto. }
+  constructor; cbn [c_st c_obs].
+  - destruct Hs as [->| ->]; [exact R1|cbn; now apply NoDup_remove1].
+  - intros x Hx. unfold upd. destruct (Nat.eqb x o); [discriminate|]. apply R2. now apply Hsub.
+  - intros x osx. unfold upd. destruct (Nat.eqb x o) eqn:E.
+    + intros [= <-]. congruence.
+    + apply Nat.eqb_neq in E. intros Hm Ha [L1 L2]. apply (Hin x E). apply (R3 x osx Hm Ha).
+      destruct Hfl as [F1 F2]. split; congruence.
+  - intros x osx. unfold upd. destruct (Nat.eqb x o); [intros [= <-] _; exact Hst|apply R4].
+Qed.
+
+Lemma Reg_upd_keep s m k l os os' k' l' o :
+  Reg (Cfg s m k l) -> m o = Some os ->
+  (a_stopped os' = false -> a_stopped os = false) -> (sad_disposed os' = true -> a_stopped os' = true) ->
+  Reg (Cfg s (upd m o os') k' l').
+Proof.
+  intros [R1 R2 R3 R4] Hm Ha Hd. cbn [c_st c_obs] in *. constructor; cbn [c_st c_obs].
+  - exact R1.
+  - intros x Hx. unfold upd. destruct (Nat.eqb x o); [discriminate|]. now apply R2.
+  - intros x osx. unfold upd. destruct (Nat.eqb x o) eqn:E; [|apply R3].
+    apply Nat.eqb_eq in E. subst x. intros [= <-] Hs. apply (R3 o os Hm). now apply Ha.
+  - intros x osx. unfold upd. destruct (Nat.eqb x o); [intros [= <-]; exact Hd|apply R4].
+Qed.
+
+Lemma Reg_state s m k l s' k' l' :
+  Reg (Cfg s m k l) -> NoDup (observers s') -> (forall x, In x (observers s') -> In x (observers s)) ->
+  (subject_live s' -> subject_live s /\ forall x, In x (observers s) -> In x (observers s')) ->
+  Reg (Cfg s' m k' l').
+Proof.
+  intros [R1 R2 R3 R4] Hnd Hsub Hl. cbn [c_st c_obs] in *. constructor; cbn [c_st c_obs].
+  - exact Hnd.
+  - intros x Hx. apply R2. now apply Hsub.
+  - intros x osx Hm Ha Hlive. destruct (Hl Hlive) as [L Hin]. apply Hin. now apply (R3 x osx Hm Ha).
+  - exact R4.
+Qed.
+
+Theorem Reg_step c : Reg c -> Reg (step C react c).
+Proof.
+  destruct c as [s m k l]. intros R. unfold step. cbn [c_k c_st c_obs c_rlog].
+  destruct k as [|i k]; [exact R|]. destruct i as [p|o n|o|o sub].
+  - unfold step_op. destruct p as [o|o|v|e| |].
+    + destruct (m o) as [os|] eqn:Hm.
+      { eapply (Reg_state s m _ l s); [exact R|exact (reg_nodup _ R)|tauto|tauto]. }
+      destruct (c_subscribe C s o) as [[[s' is] sub]|] eqn:Es.
+      * destruct (subscribe_cases s o s' is sub Es) as [(Ho & F1 & F2)|[-> Hst]].
+        -- destruct R as [R1 R2 R3 R4]. cbn [c_st c_obs] in *. constructor; cbn [c_st c_obs].
+           ++ rewrite Ho. apply NoDup_app_single; [exact R1|]. intros Hin. exact (R2 o Hin Hm).
+           ++ intros x. rewrite Ho. intros Hx. unfold upd. destruct (Nat.eqb x o) eqn:E; [discriminate|].
+              apply in_app_or in Hx. destruct Hx as [Hx|[<-|[]]]; [now apply R2|].
+              rewrite Nat.eqb_refl in E. discriminate.
+           ++ intros x osx. rewrite Ho. unfold upd. destruct (Nat.eqb x o) eqn:E.
+              ** apply Nat.eqb_eq in E. subst x. intros _ _ _. apply in_or_app. right. now left.
+              ** intros Hx Ha [L1 L2]. apply in_or_app. left. apply (R3 x osx Hx Ha). split; congruence.
+           ++ intros x osx. unfold upd. destruct (Nat.eqb x o); [intros [= <-]; discriminate|apply R4].
+        -- destruct R as [R1 R2 R3 R4]. cbn [c_st c_obs] in *. constructor; cbn [c_st c_obs].
+           ++ exact R1.
+           ++ intros x Hx. unfold upd. destruct (Nat.eqb x o); [discriminate|]. now apply R2.
+           ++ intros x osx. unfold upd. destruct (Nat.eqb x o).
+              ** intros _ _ [L1 _]. congruence.
+              ** apply R3.
+           ++ intros x osx. unfold upd. destruct (Nat.eqb x o); [intros [= <-]; discriminate|apply R4].
+      * destruct R as [R1 R2 R3 R4]. cbn [c_st c_obs] in *. constructor; cbn [c_st c_obs].
+        -- exact R1.
+        -- intros x Hx. unfold upd. destruct (Nat.eqb x o); [discriminate|]. now apply R2.
+        -- intros x osx. unfold upd. destruct (Nat.eqb x o); [intros [= <-]; discriminate|apply R3].
+        -- intros x osx. unfold upd. destruct (Nat.eqb x o); [intros [= <-]; discriminate|apply R4].
+    + destruct (m o) as [os|] eqn:Hm.
+      2:{ eapply (Reg_state s m _ l s); [exact R|exact (reg_nodup _ R)|tauto|tauto]. }
+      destruct (handle os).
+      2:{ eapply (Reg_state s m _ l s); [exact R|exact (reg_nodup _ R)|tauto|tauto]. }
+      destruct (ado_dispose_cases s os o) as [Hs Hst]. destruct (ado_dispose s os o) as [s' os']. cbn [fst snd] in *.
+      eapply Reg_remove; eauto.
+    + destruct (is_disposed s) eqn:Hd.
+      { eapply (Reg_state s m _ l s); [exact R|exact (reg_nodup _ R)|tauto|tauto]. }
+      destruct (is_stopped s) eqn:Hst.
+      { eapply (Reg_state s m _ l s); [exact R|exact (reg_nodup _ R)|tauto|tauto]. }
+      destruct (next_keeps s v) as (N1 & N2 & N3). destruct (c_next C s v) as [s' is]. cbn [fst] in *.
+      eapply (Reg_state s m _ l s'); [exact R|rewrite N1; exact (reg_nodup _ R)|rewrite N1; tauto|].
+      intros [L1 L2]. split; [split; congruence|rewrite N1; tauto].
+    + destruct (is_disposed s) eqn:Hd.
+      { eapply (Reg_state s m _ l s); [exact R|exact (reg_nodup _ R)|tauto|tauto]. }
+      destruct (is_stopped s) eqn:Hst.
+      { eapply (Reg_state s m _ l s); [exact R|exact (reg_nodup _ R)|tauto|tauto]. }
+      destruct (error_stops s e) as (N1 & N2). destruct (c_error C (set_stopped true s) e) as [s' is]. cbn [fst] in *.
+      eapply (Reg_state s m _ l s'); [exact R|rewrite N1; constructor|rewrite N1; intros x []|].
+      intros [L1 _]. congruence.
+    + destruct (is_disposed s) eqn:Hd.
+      { eapply (Reg_state s m _ l s); [exact R|exact (reg_nodup _ R)|tauto|tauto]. }
+      destruct (is_stopped s) eqn:Hst.
+      { eapply (Reg_state s m _ l s); [exact R|exact (reg_nodup _ R)|tauto|tauto]. }
+      destruct (completed_stops s) as (N1 & N2). destruct (c_completed C (set_stopped true s)) as [s' is]. cbn [fst] in *.
+      eapply (Reg_state s m _ l s'); [exact R|rewrite N1; constructor|rewrite N1; intros x []|].
+      intros [L1 _]. congruence.
+    + destruct (dispose_stops s) as (N1 & N2).
+      eapply (Reg_state s m _ l (c_dispose C s)); [exact R|rewrite N1; constructor|rewrite N1; intros x []|].
+      intros [_ L2]. congruence.
+  - destruct (m o) as [os|] eqn:Hm.
+    2:{ eapply (Reg_state s m _ l s); [exact R|exact (reg_nodup _ R)|tauto|tauto]. }
+    destruct (a_stopped os) eqn:Hst.
+    { eapply (Reg_state s m _ l s); [exact R|exact (reg_nodup _ R)|tauto|tauto]. }
+    pose proof (reg_sad _ R o os Hm) as Hsd. cbn [c_obs] in Hsd.
+    destruct n; (eapply Reg_upd_keep; [exact R|exact Hm| |]); cbn; try tauto; try (intros H; rewrite (Hsd H) in Hst; discriminate).
+    all: intros _; apply orb_true_r.
+  - destruct (m o) as [os|] eqn:Hm.
+    2:{ eapply (Reg_state s m _ l s); [exact R|exact (reg_nodup _ R)|tauto|tauto]. }
+    destruct (ado_dispose_cases s os o) as [Hs Hst]. destruct (ado_dispose s os o) as [s' os']. cbn [fst snd] in *.
+    eapply Reg_remove; eauto.
+  - destruct (m o) as [os|] eqn:Hm.
+    2:{ eapply (Reg_state s m _ l s); [exact R|exact (reg_nodup _ R)|tauto|tauto]. }
+    destruct sub as [sb|].
+    + unfold sad_set. destruct (sad_disposed os) eqn:Hd.
+      * pose proof (reg_sad _ R o os Hm Hd) as Hst. cbn in Hst.
+        destruct sb; cbn [sub_dispose].
+        -- destruct (inner_dispose_cases s os o) as (Hs & Ha & Hsd).
+           destruct (inner_dispose s os o) as [s' os']. cbn [fst snd] in *.
+           eapply Reg_remove; [exact R|eauto|exact Hs|cbn; congruence].
+        -- eapply Reg_upd_keep; [exact R|exact Hm|cbn; congruence|cbn; tauto].
+      * eapply Reg_upd_keep; [exact R|exact Hm|cbn; tauto|cbn; discriminate].
+    + eapply Reg_upd_keep; [exact R|exact Hm|cbn; tauto|cbn].
+      intros H. exact (reg_sad _ R o os Hm H).
+Qed.
+
+Lemma Reg_init v0 top : Reg (init_cfg v0 top).
+Proof.
+  constructor; cbn; [constructor|intros o []|intros o os H; discriminate|intros o os H; discriminate].
+Qed.
+
+(* for every call tree and fuel: an observer whose wrapper is not stopped (it
+   subscribed, has not unsubscribed, has received no terminal) is in the
+   observer list of a live subject -- hence in the snapshot of the next emission *)
+Theorem live_observer_registered v0 top fuel o os :
+  let c := run C react fuel (init_cfg v0 top) in
+  c_obs c o = Some os -> a_stopped os = false -> subject_live (c_st c) -> In o (observers (c_st c)).
+Proof.
+  cbv zeta. intros Hm Ha Hl.
+  assert (R : Reg (run C react fuel (init_cfg v0 top))).
+  { apply (run_ind C react Reg); [apply Reg_step|apply Reg_init]. }
+  exact (reg_in _ R o os Hm Ha Hl).
+Qed.
+
+(* an emission on a live Subject / BehaviorSubject hands the notification to
+   exactly the observers registered at that moment, in order (the snapshot) ... *)
+Lemma next_reaches_snapshot (s : @sstate A) v :
+  K <> KAsync -> snd (c_next C s v) = map (fun o => IDeliver o (Next v)) (observers s).
+Proof. destruct K; intros H; [reflexivity|reflexivity|congruence]. Qed.
+
+(* ... and a delivery to a wrapper that is not stopped reaches the observer *)
+Lemma deliver_reaches_live s m k l o n os :
+  m o = Some os -> a_stopped os = false ->
+  exists c', step C react (Cfg s m (IDeliver o n :: k) l) = c' /\ c_rlog c' = EGot o n :: l.
+Proof.
+  intros Hm Ha. eexists. split; [reflexivity|]. unfold step. cbn [c_k c_st c_obs c_rlog]. rewrite Hm, Ha.
+  destruct n; reflexivity.
+Qed.
+End Registered.
+
+Lemma subject_next_snapshot {A} (s : @sstate A) v :
+  snd (c_next subject_cls s v) = map (fun o => IDeliver o (Next v)) (observers s).
+Proof. reflexivity. Qed.
+
+Lemma behavior_next_snapshot {A} (pynone : A) (s : @sstate A) v :
+  snd (c_next (behavior_cls pynone) s v) = map (fun o => IDeliver o (Next v)) (observers s).
+Proof. reflexivity. Qed.
+
+Lemma async_completed_snapshot {A} (pynone : A) (s : @sstate A) :
+  snd (c_completed (async_cls pynone) s) =
+  flat_map (fun o => map (IDeliver o) (if has_value s then [Next (value s); Done] else [Done])) (observers s).
+Proof.
+  cbn. unfold async_completed. cbn. destruct (has_value s); [reflexivity|].
+  now rewrite <- flat_map_single.
+Qed.
